@@ -101,6 +101,13 @@ inductive Err
   | fuel       -- never produced with the fuel `buildTree` supplies
 deriving DecidableEq, Repr, Inhabited
 
+instance : DecidableEq (Except Err Json) := fun a b =>
+  match a, b with
+  | .ok x, .ok y => if h : x = y then isTrue (by rw [h]) else isFalse (fun e => h (Except.ok.inj e))
+  | .error x, .error y => if h : x = y then isTrue (by rw [h]) else isFalse (fun e => h (Except.error.inj e))
+  | .ok _, .error _ => isFalse (fun e => by cases e)
+  | .error _, .ok _ => isFalse (fun e => by cases e)
+
 /-- `fmt.Sprintf("%d", n)`. -/
 def decimal (n : Int) : Str := (toString n).toList
 
